@@ -732,6 +732,16 @@ func (e *Env) doMerge(op *Op) {
 	var n int64
 	var err error
 	w, done := wrapDest(&buf, op)
+	if op.Nested != nil {
+		// a destination that reads the index while it is being written to (a caller streaming the merge into a
+		// store that consults a segment): the read runs inside the merge's own Write calls, on its goroutine
+		w = &nestWriter{w: w, every: 1, max: 48, fn: func() {
+			sub := *e
+			sub.keybuf = nil
+			sub.inline = true
+			sub.Do(op.Nested)
+		}}
+	}
 	class := e.call(func() { n, err = m.WriteTo(w, make(chan struct{})) })
 	res := resKind(class, err)
 	mode := op.Mode
@@ -979,6 +989,22 @@ func (e *Env) doPersist(op *Op) {
 		}
 	}
 	e.emit(M{"ev": "persist", "seg": op.Seg, "file": op.File, "res": res})
+}
+
+type nestWriter struct {
+	w          io.Writer
+	fn         func()
+	calls, max int
+	every      int
+}
+
+func (n *nestWriter) Write(p []byte) (int, error) {
+	n.calls++
+	if (n.every <= 1 || n.calls%n.every == 1) && n.max > 0 {
+		n.max--
+		n.fn()
+	}
+	return n.w.Write(p)
 }
 
 // wrapDest gives the destination of a persist/merge: the plain buffer, or (op.Wrap > 0) a caller-owned
